@@ -230,6 +230,35 @@ fn parser_strategy(t: Tier) -> BoxedStrategy<ParserCase> {
             p.extend_from_slice(&rest);
             obu(1, false, 0, true, 0, &p)
         }),
+        // inputs beyond 64 KiB (16-bit counters, many units)
+        1 => (any::<u64>(), 65_000usize..70_000, 0u8..3).prop_map(|(seed, n, mode)| {
+            // expanded from a seed (generating 65 000 elements one by one through proptest is slow)
+            let mut x = seed | 1;
+            (0..n)
+                .map(|_| {
+                    x ^= x << 13;
+                    x ^= x >> 7;
+                    x ^= x << 17;
+                    let r = (x >> 32) as u8;
+                    match mode {
+                        0 => r,
+                        1 => [0, 0, 0, 0, 0, 1, 1, 3, r, r][(x >> 40) as usize % 10],
+                        _ => [0, 0, 1, r][(x >> 40) as usize % 4],
+                    }
+                })
+                .collect::<Vec<u8>>()
+        }),
+        // leb128 / length fields at their extremes behind every OBU type: 0xFF.. runs of 1..10 bytes, then a terminator
+        1 => (0u8..16, any::<bool>(), 1usize..11, prop_oneof![Just(0x7fu8), Just(0x01u8), Just(0x00u8), Just(0x80u8)], vec(any::<u8>(), 0..40)).prop_map(|(typ, ext, n, term, rest)| {
+            let mut v = vec![(typ << 3) | ((ext as u8) << 2) | 2];
+            if ext {
+                v.push(0x28);
+            }
+            v.extend(std::iter::repeat(0xffu8).take(n));
+            v.push(term);
+            v.extend_from_slice(&rest);
+            v
+        }),
     ];
     (data, prop_oneof![0usize..10, any::<usize>()], any::<bool>(), any::<u32>()).prop_map(|(data, from, flag, num)| ParserCase { data, from, flag, num }).boxed()
 }
